@@ -85,7 +85,7 @@ def main(chk):
     from mbi import Domain, LocalInference
     chk.prove()
     rng = chk.rng
-    n = 18 if chk.tier == 'quick' else 180
+    n = 15 if chk.tier == 'quick' else 150
     for it in range(n):
         stream = ('overlapping', 'disjoint', 'structured')[it % 3]
         disjoint = stream == 'disjoint'
